@@ -166,6 +166,30 @@ func init() {
 			sc.PeerFiles = append(sc.PeerFiles, f)
 			fi := len(sc.PeerFiles) - 1
 			op := PeerOp{Kind: "data", Source: "src1", Parts: []PeerPart{{File: fi, Beg: 0, End: f.Size}}}
+			if g.pct(30) && f.Size >= 3 {
+				// the same file in several slices of one request: the first slice(s)
+				// announce harmless names, the evil rename / predecessor comes with a
+				// later one (the slice that completes the file decides where it goes)
+				clean := f
+				clean.Name = fmt.Sprintf("ok%d.dat", i)
+				clean.Renamed, clean.Prev = "", ""
+				bad := clean
+				if g.pct(70) {
+					bad.Renamed = evil()
+				} else {
+					bad.Prev = evil()
+				}
+				sc.PeerFiles[fi] = clean
+				sc.PeerFiles = append(sc.PeerFiles, bad)
+				bi := len(sc.PeerFiles) - 1
+				cut := 1 + int64(g.n(int(f.Size-1)))
+				op.Parts = []PeerPart{{File: fi, Beg: 0, End: cut}, {File: bi, Beg: cut, End: f.Size}}
+				if g.pct(30) && f.Size-cut >= 2 {
+					mid := cut + 1 + int64(g.n(int(f.Size-cut-1)))
+					op.Parts = []PeerPart{{File: fi, Beg: 0, End: cut}, {File: bi, Beg: cut, End: mid}, {File: fi, Beg: mid, End: f.Size}}
+				}
+				f = clean
+			}
 			if g.pct(25) {
 				op.Sep = []string{`\`, ":", "|", "."}[g.n(4)]
 			}
@@ -174,7 +198,9 @@ func init() {
 				// a staging area that has never been polled searches its log from
 				// year 1 for an unknown predecessor (minutes of real CPU): keep
 				// unknown predecessors to the polled source
-				sc.PeerFiles[fi].Prev = ""
+				for _, pp := range op.Parts {
+					sc.PeerFiles[pp.File].Prev = ""
+				}
 			}
 			sc.Peer = append(sc.Peer, op)
 			switch g.n(6) {
